@@ -420,6 +420,7 @@ fn history_alphabet() -> Vec<Action> {
         l("TC19 all-zero", frames::df17(5, A, frames::me_velocity(&Vel { st: 1, ..Default::default() }))),
         l("TC19 all-ones", frames::df17(5, A, 0x99_FF_FF_FF_FF_FF_FF)),
         l("TC19 st3 delta", frames::df17(5, A, frames::me_velocity(&Vel { st: 3, vew: 1023, vns: 1023, vr: 511, vrsign: 1, diffsign: 1, diff: 127, ..Default::default() }))),
+        l("TC19 0 kt", frames::df17(5, A, frames::me_velocity(&Vel { st: 1, vew: 1, vns: 1, vr: 1, ..Default::default() }))),
         l("TC31 v7", frames::df17(5, A, frames::me_tc31(7))),
         l("DF18 TC11", super::rowmodel::pos_frame(18, A, 11, -1000, super::rowmodel::P2, true)),
         l("DF20 BDS1,7 all", frames::df20(A, frames::ac13_q1(3), frames::mb_bds17(0xFFFFFF))),
